@@ -336,16 +336,16 @@ def gen_chacha(tier, rng):
             cases.append(c)
     # F2: every split of every length <= 3 blocks into two stream calls
     for ln in range(0, 3 * 64 + 1):
-        r, kb = COMBOS[ln % 6]
-        base = mk_chacha(rng, API_STREAM, 1 if ln % 5 == 0 else 0, r, kb, rcounter(rng), 1, SRC_SEP,
-                         rng.bytes(ln), [])
-        for s in range(0, ln + 1):
-            c = dict(base)
-            c["pat"] = (s * 7 + ln) & 255
-            c["src_mode"] = (s + ln) % 3
-            c["chunks"] = [(s, rng.below(8), rng.below(8)), (ln - s, rng.below(8), rng.below(8))]
-            c["fam"] = "split2"
-            cases.append(c)
+        for (r, kb) in (COMBOS if thorough else [COMBOS[ln % 6]]):
+            base = mk_chacha(rng, API_STREAM, 1 if (ln + r) % 5 == 0 else 0, r, kb, rcounter(rng), 1, SRC_SEP,
+                             rng.bytes(ln), [])
+            for s in range(0, ln + 1):
+                c = dict(base)
+                c["pat"] = (s * 7 + ln) & 255
+                c["src_mode"] = (s + ln) % 3
+                c["chunks"] = [(s, rng.below(8), rng.below(8)), (ln - s, rng.below(8), rng.below(8))]
+                c["fam"] = "split2"
+                cases.append(c)
     # F3: all 8x8 (src,dst) alignments for every API and source mode
     combos = COMBOS if thorough else None
     for sa in range(8):
@@ -467,7 +467,7 @@ def gen_gost(tier, rng, names):
 
 RANDOM_COUNTS = {            # (chacha, hchacha, gost crypt) random cases per tier, generated inside the workers
     "quick": (40000, 8000, 24000),
-    "thorough": (400000, 60000, 240000),
+    "thorough": (600000, 80000, 360000),
 }
 
 
@@ -727,7 +727,7 @@ def evaluate(spec, obs_by_build, infos, sboxes, part, names):
         failing = sorted(per.keys())
         # which subset of builds disagrees with the reference matters only for output comparisons;
         # sanitizer / crash keys are raised by the builds that carry that monitor
-        scope = scope_of(failing, [b for b in ran if b in parsed or b in per], infos) if key.startswith("oracle:") else ""
+        scope = scope_of(failing, [b for b in ran if b in parsed or b in per], infos) if (key.startswith("oracle:") and ":wrong-" in key) else ""
         full_key = key
         if scope == "only-without-fno-strict-aliasing" and ":wrong-output:" in key:
             # a miscompilation: which bytes go wrong first is incidental, keep one key per entry point
@@ -791,8 +791,10 @@ def run_capped(exe, payloads):
     results = []
     aborts = 0
     pos = 0
+    size = 32
     while pos < len(payloads) and aborts < ABORT_CAP:
-        batch = payloads[pos:pos + (500 if aborts == 0 else 16)]
+        batch = payloads[pos:pos + (size if aborts == 0 else 8)]
+        size = min(4096, size * 2)
         res = common.run_cases(exe, batch)
         results.extend(res)
         if len(res) < len(batch):
